@@ -11,6 +11,37 @@ OPS13 = ["add", "sub", "mul", "neg", "abs", "min", "max", "incr", "decr", "fma",
          "batch_cast_to_f32", "batch_cast_to_i32", "batch_cast_to_u8", "to_int", "nearbyint_as_int"]
 
 
+_KEEP_INTERPRETED = {"same", "samenum", "isnan", "iszero", "eq", "neq", "lt", "le", "gt", "ge", "divpre", "avgrpre", "minok", "maxok", "signok", "signnzok",
+                     "isinf", "isfinite", "and", "or", "xor", "not", "andnot", "neg", "bitofsign"}
+
+
+def spec_uf_block():
+    """#ifdef SPEC_UF: the value-computing spec functions become uninterpreted symbols.  The lemma is a consequence of the lane-wise *shape*
+    of a contract (result lane i is a function of operand lanes i), whatever that function is: proving it for an arbitrary function proves it
+    for the real one, and spares the solver the equivalence of two copies of a rounding / multiplication / division circuit."""
+    import re as _re
+    sigs = {}
+    with open(os.path.join(VERIF, "spec", "spec.h")) as f:
+        for m in _re.finditer(r"static inline (_Bool|u##W) spec_([a-z_0-9]+)_##T\(([^)]*)\)", f.read()):
+            sigs[m.group(2)] = (m.group(1), m.group(3).count(",") + 1)
+    L = ["#ifdef SPEC_UF"]
+    for tid in ALL_TYPES:
+        w = TYPES[tid][2]
+        for name, (ret, ar) in sorted(sigs.items()):
+            if name in _KEEP_INTERPRETED:
+                continue
+            ps = ", ".join("p%d" % i for i in range(ar))
+            uf = "__CPROVER_uninterpreted_specuf_%s_%s" % (name, tid)
+            L.append("u%d %s(%s);" % (w, uf, ", ".join(["u%d" % w] * ar)))
+            L.append("#define spec_%s_%s(%s) %s" % (name, tid, ps, ("(%s(%s) != 0)" if ret == "_Bool" else "%s(%s)") % (uf, ps)))
+    for a in ALL_TYPES:
+        for b in ALL_TYPES:
+            if TYPES[a][3] == "f" or TYPES[b][3] == "f":
+                L.append("u%d __CPROVER_uninterpreted_specuf_conv_%s_%s(u%d);" % (TYPES[b][2], a, b, TYPES[a][2]))
+    L.append("#endif")
+    return "\n".join(L) + "\n"
+
+
 def fill_expr(val, tid, lane_exprs):
     """statements that set every leaf of object `val` so that lane i holds bit pattern lane_exprs[i]"""
     w = TYPES[tid][2] // 8
@@ -48,7 +79,11 @@ def run(tier, seed):
     S = special.Simple(rep)
     archs = ["sse2", "avx512f"] if tier == "quick" else ["sse2", "avx2", "avx512f", "avx512bw"]
     types = ["i16", "u32", "f32", "f64"] if tier == "quick" else ALL_TYPES
-    cases = [(o, t, a) for o in OPS13 for t in types if t in entries.OPS[o][2] for a in archs]
+    ops = os.environ.get("VERIF_C13_OPS", "").split(",") if os.environ.get("VERIF_C13_OPS") else OPS13     # development aid
+    cases = [(o, t, a) for o in ops for t in types if t in entries.OPS[o][2] for a in archs]
+    if tier == "quick":
+        # the lemma does not depend on the lane count: the 512-bit registers are sampled with their two cheapest element types
+        cases = [c for c in cases if c[2] == "sse2" or c[1] in ("u32", "f64")]
     roots = [entries.entry_name(*c) for c in cases]
     bc, fnmap, tsec = pipeline.compile_tu(wd, "c13", entries.tu_text(cases))
     fns = pipeline.discover(fnmap)
@@ -56,6 +91,7 @@ def run(tier, seed):
     jobs = [{"target": r, "out": os.path.join(wd, "e%04d.c" % i)} for i, r in enumerate(roots)]
     res = pipeline.run_ll2c(bc, jobs, wd, "c13", keep_all=keep)
     B = special.Batch()
+    UFB = spec_uf_block()
     skipped = []
     for (o, t, a), j, r in zip(cases, jobs, res):
         if not r.get("ok"):
@@ -86,7 +122,7 @@ def run(tier, seed):
         ptypes = [p["type"] for p in c["params"] if not p["sret"]][:nargs]
         sret = [p for p in c["params"] if p["sret"]]
         ret_ctype = sret[0]["type"][:-1].strip() if sret else c["ret"]
-        L = ['#include "spec.h"\n', gen.contract_text(cctx, c["name"])]
+        L = ['#include "spec.h"\n', UFB, gen.contract_text(cctx, c["name"])]
         # lemma function: X_i arbitrary, Y_i = broadcast(X_i[k]) for a symbolic lane k
         rt = cctx.ret.tid or fn.tid
         H = []
@@ -117,8 +153,8 @@ def run(tier, seed):
             nr = lanes(rt, fn.aid)
             l1 = [r1.lane(rt, q) for q in range(nr)]
             l2 = [r2.lane(rt, q) for q in range(nr)]
-            if TYPES[rt][3] == "f" and fn.op in ("min", "max"):
-                # C02 leaves the choice between +0 and -0 open for min/max: the lemma is stated up to the sign of zero
+            if TYPES[rt][3] == "f" and fn.op in ("min", "max", "ceil", "floor", "trunc", "round", "nearbyint", "rint", "sign"):
+                # C02/C08 leave the sign of a zero result open for these: the lemma is stated up to the sign of zero
                 same = lambda x, y: "spec_samenum_%s(%s, %s)" % (rt, x, y)
             elif TYPES[rt][3] == "f":
                 same = lambda x, y: "spec_same_%s(%s, %s)" % (rt, x, y)
@@ -134,10 +170,17 @@ def run(tier, seed):
                     txt = _re.sub(r"(?<![A-Za-z0-9_])%s(?![A-Za-z0-9_])" % _re.escape(arg.cname), "(%s%d)" % (pfx, i), txt)
             return txt
         reqs_all = req + [rename(q, "X") for q in pre_x] + [rename(q, "Y") for q in pre_x]
+        lane_pre = getattr(cctx, "lane_pre", None)
+        if lane_pre:
+            # contracts stated per lane under a representability condition: the lemma speaks of a lane k that satisfies it
+            reqs_all.append(pick([rename(q, "X") for q in lane_pre], "k"))
+            reqs_all += [rename(q, "Y") for q in lane_pre]
         L.append("#define CONTRACT_lemma \\\n" + "".join("  __CPROVER_requires(%s) \\\n" % q for q in reqs_all) + "  __CPROVER_ensures(__CPROVER_return_value == 1) \\\n  __CPROVER_assigns()\n")
         H[0] = H[0] + "\n  CONTRACT_lemma\n{"
         H += body + ["}"]
         H.append("void harness(void) {")
+        if TYPES[t][3] == "f" or TYPES[rt][3] == "f" or getattr(cctx, "uses_float", False):
+            H.append("  ll_use_libm();     /* spec functions used only inside contracts need their library bodies (dfcc stubs them otherwise) */")
         call = []
         for i, pt in enumerate(ptypes):
             base = pt[:-1].strip()
@@ -147,7 +190,7 @@ def run(tier, seed):
         H.append('  __CPROVER_assert(0, "canary: end of harness is reachable");\n}')
         title = "lane independence of %s [%s, %s]" % (fn.sig.qual, t, a)
         mode = fn.row.mode
-        att = check.attempts_for(mode, tier)
+        att = [("specuf", "sat", 60), ("specuf", "z3", 60)] + [a for a in check.attempts_for(mode, tier) if a[0] == "concrete"]
         B.add((lambda rr, title=title, cn=c["demangled"]: S.add(title, "contract of " + cn.split("(")[0][-60:], rr, replaced=[cn.split("(")[0][-60:]])),
               wd, "e%04d" % jobs.index(j), j["out"], "".join(L), "\n".join(H) + "\n", "lemma", replace=[c["name"]], attempts=att)
     B.run()
